@@ -17,7 +17,7 @@ namespace PV.C04
 /-- `UnmarshalBinary(WriteTo(b))` succeeds, leaves the bytes alone, yields the same set and the
 same flags, and finds no op log.  `BitmapWf`: containers as the kernels keep them (ascending
 arrays, 8192-byte bitmaps, ordered disjoint runs; cardinality field = number of values; empty
-containers allowed), ascending keys < 2^64.  The size hypothesis: offsets are uint32. -/
+containers allowed), ascending keys < 2^48 (keys are value >> 16).  The size hypothesis: offsets are uint32. -/
 theorem C04_roundtrip (b : Bitmap) (hb : BitmapWf b) (hsize : (encodeP b).length < 2 ^ 32) :
     ∃ r, unmarshal (encodeP b) = .ok (r, encodeP b)
       ∧ r.vals.values = b.values ∧ r.flags = b.flags % 256 ∧ r.ops = 0 ∧ r.opN = 0 := by
@@ -87,17 +87,18 @@ theorem C04_spec_diff_mem (a b : List Nat) (ha : Asc a) (hb : Asc b) (x : Nat) :
     x ∈ Spec.diff a b ↔ x ∈ a ∧ x ∉ b :=
   mem_diffAsc a b ha hb x
 
-/-- Any payload (either format) whose walk ends in io.EOF and whose containers are well formed
-is merged exactly like the set `S` it carries: set mode = union, clear mode = difference,
-`changed` = number of bits by which the bitmap changed.  `m`: the target, any well-formed
-value-level bitmap (either collection kind: the model is the key ↦ values map). -/
+/-- Any payload (either format) that `ImportRoaringBits` accepts — its walk ends in io.EOF and
+every container is consistent with its header (`walkVerdict w = none`) — is merged exactly like
+the set `S` it carries: set mode = union, clear mode = difference, `changed` = number of bits by
+which the bitmap changed.  `m`: the target, any well-formed value-level bitmap (either collection
+kind: the model is the key ↦ values map). -/
 theorem C04_import (m : VMap) (hm : VMapOk m) (d : Bytes) (clear : Bool) (w : Walk)
-    (hw : iterate d = .ok w) (he : w.err = none) (hit : ∀ it ∈ w.items, ItemOk it)
+    (hw : iterate d = .ok w) (hv : walkVerdict w = none)
     (S : List Nat) (hS : Asc S) (hmem : ∀ x, x ∈ S ↔ x ∈ itemsValues w.items) :
     ∃ m' ch, importBits m d clear = .ok (m', ch)
       ∧ m'.values = (if clear then Spec.diff m.values S else Spec.union m.values S)
       ∧ ch = Spec.delta m.values m'.values := by
-  obtain ⟨m', ch, h1, _, h3, h4⟩ := importBits_spec m hm d clear w hw he hit S hS hmem
+  obtain ⟨m', ch, h1, _, h3, h4⟩ := importBits_spec m hm d clear w hw hv S hS hmem
   exact ⟨m', ch, h1, h3, h4⟩
 
 /-- Importing the Pilosa encoding of `b` in set mode = union with `b`'s set. -/
@@ -106,9 +107,9 @@ theorem C04_import_set (m : VMap) (hm : VMapOk m) (b : Bitmap) (hb : BitmapWf b)
     ∃ m' ch, importBits m (encodeP b) false = .ok (m', ch)
       ∧ m'.values = Spec.union m.values b.values
       ∧ ch = m'.values.length - m.values.length := by
-  obtain ⟨h1, h2, h3⟩ := iterate_encodeP b hb hsize
-  obtain ⟨m', ch, i1, i2, i3, i4⟩ := importBits_spec m hm (encodeP b) false _ h1 rfl h2 b.values
-    (bitmap_values_asc b hb) (fun x => by rw [h3])
+  obtain ⟨h1, _, h3⟩ := iterate_encodeP b hb hsize
+  obtain ⟨m', ch, i1, i2, i3, i4⟩ := importBits_spec m hm (encodeP b) false _ h1 (walkVerdict_encodeP b hb)
+    b.values (bitmap_values_asc b hb) (fun x => by rw [h3])
   refine ⟨m', ch, i1, by simpa using i3, ?_⟩
   rw [i4]
   simp only [Bool.false_eq_true, ↓reduceIte] at i3
@@ -123,9 +124,9 @@ theorem C04_import_clear (m : VMap) (hm : VMapOk m) (b : Bitmap) (hb : BitmapWf 
     ∃ m' ch, importBits m (encodeP b) true = .ok (m', ch)
       ∧ m'.values = Spec.diff m.values b.values
       ∧ ch = m.values.length - m'.values.length := by
-  obtain ⟨h1, h2, h3⟩ := iterate_encodeP b hb hsize
-  obtain ⟨m', ch, i1, i2, i3, i4⟩ := importBits_spec m hm (encodeP b) true _ h1 rfl h2 b.values
-    (bitmap_values_asc b hb) (fun x => by rw [h3])
+  obtain ⟨h1, _, h3⟩ := iterate_encodeP b hb hsize
+  obtain ⟨m', ch, i1, i2, i3, i4⟩ := importBits_spec m hm (encodeP b) true _ h1 (walkVerdict_encodeP b hb)
+    b.values (bitmap_values_asc b hb) (fun x => by rw [h3])
   refine ⟨m', ch, i1, by simpa using i3, ?_⟩
   rw [i4]
   simp only [↓reduceIte] at i3
